@@ -5,20 +5,25 @@ import common
 from common import sx, q, ok, cname, cnum
 from units import U
 import props.c03 as c03
+import props.c03_hare as c03_hare
 
 ID = 'C04'
 LEVEL = 'proof'
 TIE = c03.TIE
 RULE = ('corpus; ranked profiles as in C03 (2..6 candidates, truncation, shared ranks 20 %), 1<=n<=|C|, quota in {droop, hare}, '
-        'Gregory (model = independent weighted-inclusive-Gregory reference, compared on final outcomes and refusals) and Hare with '
-        'seeds 0..3 on integer quotas (implementation-side checks only). Declarative clauses on every implementation outcome: exactly n '
+        'Gregory (model = independent weighted-inclusive-Gregory reference, compared on final outcomes and refusals); Hare with '
+        'seeds 0..3 on integer quotas (implementation-side checks) and Hare against its model (Model/STVHare.v, stream hare-oracle: the '
+        'profiles and recorded draws of props/c03_hare.py - 3..7 candidates, whole weights, seeds {0..5, 17, None} or invented draws -, '
+        'the PUBLIC evaluate() of the selector / distributor run on the replayed draws, final seats and refusals compared with the '
+        'model run on the same draws). Declarative clauses on every implementation outcome: exactly n '
         'distinct winners when n candidates stand and the count is not refused; majority first choice wins one seat; every solid '
         'coalition (all non-empty candidate subsets, every k) holding k quotas gets min(k,|S|) seats (ballots without shared ranks). '
         'non-trivial = more than one count; distinct by case hash')
 PARTIAL = ['PSC: theorem for all inputs of the Gregory model (C04_psc, Proofs/STV_psc_proofs.v); additionally decided per case on '
            'every implementation outcome by a brute-force checker over all candidate subsets',
            'majority clause: theorem from the first count on; first-preference link decided per case',
-           'Hare transfers: implementation-side checks only']
+           'Hare transferer: PSC is a theorem for every oracle (C04_psc_hare_transferer, Proofs/STVHare_psc_proofs.v) about the '
+           'oracle model tied count by count in C03; exact count / majority under Hare: decided per case on the implementation outcomes']
 TRUSTED = []
 
 
@@ -149,6 +154,8 @@ def explore(ctx, widen=1):
               spec=lambda c, io, mo: spec(c, io, mo) or c03.spec(dict(c, transferer=_hare(c)), io, mo))
     ctx.differential('hare-seeded', gen(ctx.rng, ctx.n(400, 5000) * widen, hare=True), model_line, impl, **hk)
     ctx.differential('hare-boundary', gen(ctx.rng, ctx.n(300, 4000) * widen, hare=True, boundary=True), model_line, impl, **hk)
+    ctx.differential('hare-oracle', gen_hare_oracle(ctx.rng, ctx.n(500, 8000) * widen), c03_hare.model_line, hare_impl,
+                     canon=hare_canon, nontrivial=nontrivial, spec=hare_spec, known_class=known_class, limit=20)
 
 
 def _hare(c):
@@ -156,7 +163,67 @@ def _hare(c):
     return tr.Hare(seed=c['hare'])
 
 
+# ---- Hare transferer against its model (Model/STVHare.v): the draws recorded from the implementation are the oracle of the
+# model (props/c03_hare.py); here the PUBLIC evaluate() of the selector / distributor is run on the replayed draws and its
+# final outcome compared with the model's, and the declarative clauses (count, majority, PSC) are judged on it
+def hare_impl(c):
+    import votelib.evaluate.sequential as seq
+    import votelib.component.transfer as tr
+    tape = c03_hare.Tape('replay', c['tape'])
+    with tape:
+        cf = c['cfg']
+        dist = seq.TransferableVoteDistributor(
+            transferer=tr.Hare(seed=c.get('seed')), eliminate_step=cf['step'],
+            quota_function=None if cf['quota'] is None else c03_hare.QN[cf['quota']],
+            accept_quota_equal=bool(cf['ae']), mandatory_quota=bool(cf['mq']))
+        votes = c03_hare.py_votes(c['votes'])
+        try:
+            if c['form'] == 'selector':
+                res = {x: 1 for x in seq.TransferableVoteSelector(dist).evaluate(votes, c['n'])}
+            else:
+                res = dist.evaluate(votes, c['n'], max_seats={cname(k): v for k, v in c['caps']})
+        except c03_hare.TapeError:
+            return ok([[], [], [], c03_hare.E_ORACLE, 0])
+    return ok([[], [], [[cnum(k), v] for k, v in res.items()], 0, 0])
+
+
+def hare_canon(c, wire):
+    v = common.parse_sx(wire)
+    if v[0] != 0:
+        return ('stop', v[1])
+    if v[1][3]:
+        return ('stop', v[1][3])
+    return ('ok', tuple(sorted((k, s) for k, s in v[1][2] if s)))
+
+
+def hare_spec(c, io, mo):
+    v = common.parse_sx(io)
+    if v[0] != 0:
+        if v[1] == common.E['TYPE'] and c['cfg']['quota'] in (1, 4):
+            return None          # a fractional number of ballots to draw: the model stops with the same TypeError (compared)
+        return spec(c, io, mo)
+    return spec(c, ok([[], v[1][2], v[1][3]]), mo)
+
+
+def gen_hare_oracle(rng, count):
+    for c in c03_hare.gen(rng, count):
+        c['form'] = 'selector' if all(v == 1 for _, v in c['caps']) else 'distributor'
+        c['cfg'] = dict(c['cfg'], mq=0)
+        if c['cfg']['quota'] is None:
+            c['cfg']['quota'] = 3
+        # the draws depend on the configuration: record them again
+        if c['draws'].startswith('seed'):
+            c03_hare.record(c, 'seed', rng.randint(0, 10 ** 6))
+        else:
+            c03_hare.record(c, c['draws'], rng.randint(0, 10 ** 6))
+        c.pop('_end', None)
+        yield c
+
+
 def replay(ctx, case, stream=None):
+    if case.get('unit') == 'stv_hare':
+        return ctx.differential('replay', [case], c03_hare.model_line, hare_impl, canon=hare_canon, nontrivial=nontrivial,
+                                spec=hare_spec, known_class=known_class)
     if case.get('hare') is not None:
         ctx.differential('replay', [case], model_line, impl, canon=canon_hare, nontrivial=nontrivial,
                          spec=lambda c, io, mo: spec(c, io, mo) or c03.spec(dict(c, transferer=_hare(c)), io, mo))
